@@ -7,7 +7,7 @@ import z3
 from sx import core as S, env as E, npshim, ffi
 
 PROPERTY = "C13"
-REGIONS = ["magnitude-above-2^53", "shadow", "prio", "rank", "first", "last", "min", "max", "1-D", "2-D-axis0", "2-D-axis1", "3-D", "all-zero-column", "tie", "negative-priority",
+REGIONS = ["transposed-layout", "magnitude-above-2^53", "shadow", "prio", "rank", "first", "last", "min", "max", "1-D", "2-D-axis0", "2-D-axis1", "3-D", "all-zero-column", "tie", "negative-priority",
            "later-row-overrides"]
 BOUNDS = ("every array entry symbolic with |p|<=50 (and |p|<=2^62 for the 1-D n=3 and 2x2 shapes, where translator validation is biased to adjacent values above 2^53); shapes: 1-D n<=4 (thorough 5), 2-D 2x2, 2x3 (thorough also 3x2) on both axes, 3-D 2x2x2 (axis 0, "
           "thorough); all seven methods; 'shadow' through the real FFI on path representatives (M8)")
@@ -40,6 +40,11 @@ def instantiations(tier, seed):
     for me in ("shadow", "prio", "rank", "last", "max"):
         out.append({"shape": [3], "axis": None, "method": me, "big": True})
         out.append({"shape": [2, 2], "axis": 0, "method": me, "big": True})
+    # logically the same arrays, but handed over as transposed views (axis-permuted memory layout)
+    for me in ("shadow", "prio", "first", "min"):
+        # axis=None flattens to 1x4: four free entries cost ~150 s for shadow/prio, so one entry is pinned there
+        out.append({"shape": [2, 2], "axis": None, "method": me, "layout": "T", "fixed": ({"1,1": 3} if me in ("shadow", "prio") else None)})
+        out.append({"shape": [2, 2], "axis": 0, "method": me, "layout": "T"})
     if tier == "quick":
         out.append({"shape": [2, 2, 2], "axis": 0, "method": "first"})
         out.append({"shape": [2, 2, 2], "axis": 0, "method": "max"})
@@ -50,6 +55,9 @@ def instantiations(tier, seed):
 
 def fibres(shape, axis, me=None):
     """list of (output index, [input indices along the compression axis]) according to the documented semantics"""
+    if len(shape) == 2 and axis is None:
+        # flattened in logical row-major order first, then every element is its own column
+        return [((i * shape[1] + j,), [(i, j)]) for i in range(shape[0]) for j in range(shape[1])]
     if len(shape) == 3 and me in ("min", "max"):
         # numpy reduction along the true axis 0
         return [((i, j), [(g, i, j) for g in range(shape[0])]) for i in range(shape[1]) for j in range(shape[2])]
@@ -86,6 +94,8 @@ def run_inst(spec, run):
                 s = S.K(fixed[key]) if key in fixed else ctx.int("p" + "_".join(map(str, idx)), -rng_, rng_)
                 arr[idx] = s
                 ent[idx] = s
+            if spec.get("layout") == "T":
+                arr = np.ascontiguousarray(arr.T).T       # same logical content, Fortran-ordered memory
             X = ns.pnd.integer_ndarray(arr) if len(shape) >= 2 else ns.pnd.integer_ndarray(arr, variables=[ns.puan.variable(i) for i in range(shape[0])], index=[ns.puan.variable(i) for i in range(shape[0])])
             err = res = None
             try:
@@ -108,10 +118,14 @@ def run_inst(spec, run):
                 return
             run.region(me)
             run.region({1: "1-D", 3: "3-D"}.get(len(shape), "2-D-axis%s" % axis))
+            if spec.get("layout") == "T":
+                run.region("transposed-layout")
             res = np.asarray(d["res"], dtype=object)
             fb = fibres(shape, axis, me)
             if len(shape) == 1:
                 out_shape = (shape[0],)
+            elif len(shape) == 2 and axis is None:
+                out_shape = (shape[0] * shape[1],)
             elif len(shape) == 2:
                 out_shape = (shape[1],) if axis == 0 else (shape[0],)
             else:
